@@ -20,9 +20,16 @@ def build():
     props = ["C%02d" % i for i in range(1, 21)]
     checks = []
     na = []
+    ready_file = os.path.join(shadow.VERIF, "ready.txt")
+    ready = set(open(ready_file).read().split()) if os.path.exists(ready_file) else set()
     for p in props:
         has = any(q.prop == p for q in queries.ALL)
         meta = tables.PROP_META.get(p, {})
+        if has and p not in ready:
+            na.append({"property_id": p, "reason": "queries are built (see engine/tables.py) but the quick tier has not "
+                       "yet been calibrated to pass reliably within its time budget on the unchanged tree; not claimed "
+                       "until it does"})
+            continue
         if not has or meta.get("unclaimed"):
             na.append({"property_id": p, "reason": NOT_APPLICABLE.get(p, meta.get("unclaimed", PENDING))})
             continue
